@@ -3,6 +3,7 @@ import BoolFn.Proofs.TableOps
 import BoolFn.Proofs.BddOps
 import BoolFn.Bdd
 import BoolFn.Spec.Check
+import BoolFn.Proofs.Oracle4
 /-! # C10 — Domain, image, relation, support, weight and sat-point enumerations are coherent
 
 For a function with n declared inputs the domain lists each of the 2^n points exactly once in
